@@ -536,3 +536,20 @@ Theorem C19_shipped_configuration :
   ltac:(let t := type of (conj C19_chunk_shipped (conj C19_runs_shipped C19_with_stack_shipped)) in exact t).
 Proof. exact (conj C19_chunk_shipped (conj C19_runs_shipped C19_with_stack_shipped)). Qed.
 Print Assumptions C19_shipped_configuration.
+
+(* ---- translator tie: Clamp, Abs and the xsort comparison helpers, translated literally from the Go source
+        on every run (Generated/Funcs.v), are the definitions the models use ---- *)
+From Juniper Require Import Generated.Funcs Translated.FuncsOK.
+
+Theorem C19_translated_helpers :
+  (forall x lo hi, go_Clamp x lo hi = clamp x lo hi) /\
+  (forall w x, go_Abs (fun y => wrap w (- y)) x = abs_w w x) /\
+  (forall less a b, go_Greater less a b = greater less a b) /\
+  (forall less a b, go_LessOrEqual less a b = less_or_equal less a b) /\
+  (forall less a b, go_GreaterOrEqual less a b = greater_or_equal less a b) /\
+  (forall less a b, go_Equal less a b = equal_ less a b).
+Proof.
+  exact (conj go_Clamp_ok (conj go_Abs_ok (conj go_Greater_ok (conj go_LessOrEqual_ok (conj go_GreaterOrEqual_ok go_Equal_ok))))).
+Qed.
+
+Print Assumptions C19_translated_helpers.
